@@ -66,6 +66,7 @@ Holds(e, S, R, status) ==
     [] e.op = "ceil1000" -> LET t == S[e.args[2]] - S[e.args[1]] IN
                               IF t <= 0 THEN v = 0 ELSE v = ((t + 99999) \div 100000) * 100000
     [] e.op = "max0sub" -> Near(v, Max(0, S[e.args[2]] - S[e.args[1]]), e.tol)
+    [] e.op = "absent" -> FALSE          \* the instruction sends this line to a worksheet that the solution does not contain
     (* 2021 Recovery Rebate Credit Worksheet line 6: $1,400; $2,800 on a joint return if question 2 or 3 was answered yes; nothing *)
     (* if the only qualifying social security numbers are those of dependents.  args = the worksheet's lines 2, 3, 4, 5         *)
     [] e.op = "rrc6" -> LET g(n) == IF n \in DOMAIN S THEN S[n] ELSE 0
